@@ -63,7 +63,11 @@ def canonicalize_url(
 
     # Path normalization
     else:
+        trailing_slash = path.endswith(("/", "/.", "/.."))
         path = normpath(path)
+
+        if trailing_slash and path:
+            path += "/"
 
     # Quotes
     if user:
